@@ -57,7 +57,11 @@ fn main() {
                     if let Some(sc) = replay.get_mut("scenario") {
                         sc["strategy"] = serde_json::json!({"Forced": rep.schedule});
                         // non-termination of a pooled solver on a long-arc model is also the business of C15
-                        if let Ok(s) = serde_json::from_value::<solve::Scenario>(sc.clone()) { if arms::is_pooled_longarc(&s) && viol.class == "step-bound" { viol.props.push("C15".into()); } }
+                        if let Ok(s) = serde_json::from_value::<solve::Scenario>(sc.clone()) {
+                            if arms::is_pooled_longarc(&s) && viol.class == "step-bound" { viol.props.push("C15".into()); }
+                            // an uninterrupted parallel run that never returns does not report the optimum either
+                            if s.parallel && s.cut == ddosim::wrap::CutPlan::Never && !viol.props.is_empty() { viol.props.push("C03".into()); }
+                        }
                     }
                     let rec = ViolationRecord { arm: g.arm.clone(), seed: g.cur_seed, run, violations: vec![viol.clone()], replay };
                     println!("{}", serde_json::json!({"violation": rec, "harness_error": harness}));
